@@ -785,6 +785,25 @@ func ruleX7(p *Prog, r *Report) {
 					return true
 				}
 			}
+		case *ssa.Call:
+			// library helpers that hand back (a view of) their argument: slices.Clip / Grow / Insert / Delete / Compact ...,
+			// append(shared, ...) - only the cloning ones (slices.Clone, slices.Concat, bytes.Clone) make a fresh copy
+			if bi, ok := x.Call.Value.(*ssa.Builtin); ok && bi.Name() == "append" && len(x.Call.Args) > 0 {
+				return derived(x.Call.Args[0], depth+1)
+			}
+			if g := x.Call.StaticCallee(); g != nil {
+				pkg, name := "", g.Name()
+				if g.Pkg != nil {
+					pkg = g.Pkg.Pkg.Path()
+				} else if o := g.Origin(); o != nil && o.Pkg != nil {
+					pkg, name = o.Pkg.Pkg.Path(), o.Name()
+				}
+				if pkg == "slices" && name != "Clone" && name != "Concat" && name != "Collect" && len(x.Call.Args) > 0 {
+					if _, isSlice := x.Type().Underlying().(*types.Slice); isSlice {
+						return derived(x.Call.Args[0], depth+1)
+					}
+				}
+			}
 		}
 		return false
 	}
